@@ -651,13 +651,14 @@ struct Contracts {
     anchors: Vec<(String, bool, String, String)>,    // (fnkey, after?, substr, marker)
     hdr_expect: HashMap<(String, usize), String>,    // (fnkey, loop k) -> fingerprint
     loops_expect: HashMap<String, usize>,            // fnkey -> number of loops when the contract was written
+    locals_expect: HashMap<String, Vec<String>>,     // fnkey -> parameter and local binding names, in order, when the contract was written
     sections: Vec<(String, String, String)>,         // (fnkey, kind, file) for the log
 }
 
 fn load_contracts(paths: &[String]) -> Contracts {
     // sections: "#fn NAME" then "#requires", "#ensures", "#spec" (raw, after ensures), "#inv K [@hdr=H]", "#dec K", "#bs K",
     // "#be K", "#pre K", "#post K", "#fs", "#closure K", "#before TEXT", "#after TEXT". Sections with the same key are concatenated.
-    let mut c = Contracts { text: HashMap::new(), anchors: vec![], hdr_expect: HashMap::new(), loops_expect: HashMap::new(), sections: vec![] };
+    let mut c = Contracts { text: HashMap::new(), anchors: vec![], hdr_expect: HashMap::new(), loops_expect: HashMap::new(), locals_expect: HashMap::new(), sections: vec![] };
     let mut anc_count = 0usize;
     for path in paths {
         let txt = std::fs::read_to_string(path).unwrap_or_else(|e| { eprintln!("VX-ERROR cannot read contracts {}: {}", path, e); std::process::exit(4) });
@@ -681,6 +682,7 @@ fn load_contracts(paths: &[String]) -> Contracts {
             if let Some(rest) = line.strip_prefix('#').filter(|_| !line.starts_with("#[")) {
                 let parts: Vec<&str> = rest.split_whitespace().collect();
                 if parts.is_empty() { continue; }
+                if parts[0] == "locals" { c.locals_expect.insert(f.clone(), parts.get(1).map(|x| x.split(',').map(|y| y.to_string()).collect()).unwrap_or_default()); key = None; continue; }
                 if parts[0] == "loops" { if let Some(n) = parts.get(1).and_then(|x| x.parse::<usize>().ok()) { c.loops_expect.insert(f.clone(), n); } key = None; continue; }
                 let k = match parts[0] {
                     "requires" => format!("__vx_req_{}", f),
@@ -709,6 +711,67 @@ fn load_contracts(paths: &[String]) -> Contracts {
     c
 }
 
+
+// ---- binding names of a function (parameters, let / for / match / closure patterns) in source order: recorded next to the
+// contract (`#locals`), so that a consistent renaming of locals can be followed instead of losing every annotation that names them
+struct BindingNames(Vec<String>);
+impl<'ast> syn::visit::Visit<'ast> for BindingNames {
+    fn visit_pat_ident(&mut self, p: &'ast PatIdent) { self.0.push(p.ident.to_string()); syn::visit::visit_pat_ident(self, p); }
+}
+fn binding_names(sig: &Signature, block: &Block) -> Vec<String> {
+    let mut b = BindingNames(vec![]);
+    for a in sig.inputs.iter() { if let FnArg::Typed(pt) = a { syn::visit::Visit::visit_pat(&mut b, &pt.pat); } }
+    syn::visit::Visit::visit_block(&mut b, block);
+    b.0
+}
+// old name -> new name from the recorded and the actual binding lists (positional inside stretches between equal names)
+fn local_renames(exp: &[String], act: &[String]) -> (HashMap<String, String>, Vec<String>) {
+    let (n1, n2) = (exp.len(), act.len());
+    let mut dp = vec![vec![0usize; n2 + 1]; n1 + 1];
+    for i in (0..n1).rev() { for j in (0..n2).rev() { dp[i][j] = if exp[i] == act[j] { dp[i + 1][j + 1] + 1 } else { dp[i + 1][j].max(dp[i][j + 1]) }; } }
+    let (mut i, mut j) = (0usize, 0usize);
+    let mut pairs: Vec<(String, String)> = vec![];
+    let (mut gi, mut gj) = (0usize, 0usize);
+    let mut flush = |gi: usize, i: usize, gj: usize, j: usize, pairs: &mut Vec<(String, String)>| {
+        if i - gi == j - gj { for k in 0..(i - gi) { pairs.push((exp[gi + k].clone(), act[gj + k].clone())); } }
+    };
+    while i < n1 && j < n2 {
+        if exp[i] == act[j] && dp[i][j] == dp[i + 1][j + 1] + 1 { flush(gi, i, gj, j, &mut pairs); i += 1; j += 1; gi = i; gj = j; }
+        else if dp[i + 1][j] >= dp[i][j + 1] { i += 1; } else { j += 1; }
+    }
+    flush(gi, n1, gj, n2, &mut pairs);
+    let mut map: HashMap<String, String> = HashMap::new();
+    let mut ambiguous: Vec<String> = vec![];
+    for (o, n) in pairs { if o != n { match map.get(&o) { Some(prev) if *prev != n => ambiguous.push(o.clone()), _ => { map.insert(o, n); } } } }
+    // a name that is still bound somewhere under its old spelling cannot be renamed textually
+    for a in ambiguous.iter() { map.remove(a); }
+    let still: HashSet<&String> = act.iter().collect();
+    let drop: Vec<String> = map.keys().filter(|k| still.contains(k)).cloned().collect();
+    for d in drop.iter() { map.remove(d); ambiguous.push(d.clone()); }
+    (map, ambiguous)
+}
+fn rename_idents(txt: &str, map: &HashMap<String, String>) -> String {
+    let b: Vec<char> = txt.chars().collect();
+    let mut out = String::new();
+    let mut i = 0;
+    while i < b.len() {
+        let c = b[i];
+        if c.is_alphabetic() || c == '_' {
+            let mut j = i;
+            while j < b.len() && (b[j].is_alphanumeric() || b[j] == '_') { j += 1; }
+            let word: String = b[i..j].iter().collect();
+            // previous non-blank character: a single '.' means field / method access, which is not a local
+            let mut k = i; let mut prev = ' '; let mut prev2 = ' ';
+            while k > 0 { k -= 1; if !b[k].is_whitespace() { prev = b[k]; if k > 0 { prev2 = b[k - 1]; } break; } }
+            let field = prev == '.' && prev2 != '.';
+            let prefixed = i > 0 && (b[i - 1].is_alphanumeric());
+            match map.get(&word) { Some(n) if !field && !prefixed => out.push_str(n), _ => out.push_str(&word) }
+            i = j;
+        } else { out.push(c); i += 1; }
+    }
+    out
+}
+
 // degraded matching: contract text names loop iterators by the ordinal the loop had when the contract was written (`it7`);
 // when loops were inserted or removed the paired loop has another ordinal, so the names are rewritten for the whole function
 fn rename_its(txt: &str, map: &HashMap<usize, usize>) -> String {
@@ -734,7 +797,7 @@ fn rename_its(txt: &str, map: &HashMap<usize, usize>) -> String {
     out
 }
 
-fn substitute(text: &str, c: &Contracts, remap: &HashMap<(String, usize), Option<usize>>) -> String {
+fn substitute(text: &str, c: &Contracts, remap: &HashMap<(String, usize), Option<usize>>, lrename: &HashMap<String, HashMap<String, String>>) -> String {
     // replace marker identifiers (optionally followed by " ;") with contract text or nothing
     let mut renamed: HashMap<String, String> = HashMap::new();
     if !remap.is_empty() {
@@ -747,6 +810,15 @@ fn substitute(text: &str, c: &Contracts, remap: &HashMap<(String, usize), Option
                 let mine = match rest { Some(r) => r == f || r.strip_prefix(&format!("{}_", f)).map(|d| !d.is_empty() && d.chars().all(|c| c.is_ascii_digit())).unwrap_or(false), None => false };
                 if mine { renamed.insert(id.clone(), rename_its(t, mp)); }
             }
+        }
+    }
+    // renamed locals / parameters: every text section of the function, its head (requires / ensures) included
+    for (f, mp) in lrename.iter() {
+        for (id, t) in c.text.iter() {
+            let rest = ["__vx_inv_", "__vx_bs_", "__vx_be_", "__vx_pre_", "__vx_post_", "__vx_lattr_", "__vx_dec_", "__vx_anc_", "__vx_fs_", "__vx_cl_", "__vx_req_", "__vx_ens_", "__vx_spec_"]
+                .iter().find_map(|p| id.strip_prefix(p));
+            let mine = match rest { Some(r) => r == f || r.strip_prefix(&format!("{}_", f)).map(|d| !d.is_empty() && d.chars().all(|c| c.is_ascii_digit())).unwrap_or(false), None => false };
+            if mine { let base = renamed.get(id).cloned().unwrap_or_else(|| t.clone()); renamed.insert(id.clone(), rename_idents(&base, mp)); }
         }
     }
     let merged: HashMap<String, String> = if renamed.is_empty() { HashMap::new() } else {
@@ -1062,7 +1134,7 @@ fn item_name(item: &Item) -> Option<String> {
 }
 
 struct Ctx<'a> { o: &'a Opts, p: Passes, c: &'a Contracts, out: String, found: Vec<String>, loops: Vec<(String, usize, String, String, usize)>, errors: Vec<String>,
-    remap: HashMap<(String, usize), Option<usize>>, degraded: Vec<String> }
+    remap: HashMap<(String, usize), Option<usize>>, degraded: Vec<String>, lrename: HashMap<String, HashMap<String, String>>, locals: Vec<(String, Vec<String>)> }
 
 fn process_fn(cx: &mut Ctx, vis: &Visibility, sig: &Signature, block: &Block, in_trait_impl: bool) {
     let name = sig.ident.to_string();
@@ -1167,10 +1239,30 @@ fn process_fn(cx: &mut Ctx, vis: &Visibility, sig: &Signature, block: &Block, in
             None => cx.errors.push(format!("ANCHOR-LOST opaque site '{}' in fn {}", prefix, name)),
         }
     }
+    // binding names: recorded next to the contract; a consistent renaming is followed in tolerant mode
+    let names_now = binding_names(&sig, &block);
+    cx.locals.push((fkey.clone(), names_now.clone()));
+    let mut lmap: HashMap<String, String> = HashMap::new();
+    if let Some(exp) = cx.c.locals_expect.get(&fkey) {
+        if *exp != names_now {
+            let (m, amb) = local_renames(exp, &names_now);
+            if !m.is_empty() || !amb.is_empty() {
+                if !cx.o.tolerant {
+                    cx.errors.push(format!("ANCHOR-LOST fn {}: parameter / local names differ from the ones the contract was written for ({})", fkey,
+                        m.iter().map(|(a, b)| format!("{}->{}", a, b)).collect::<Vec<_>>().join(",")));
+                } else {
+                    let mut l: Vec<String> = m.iter().map(|(a, b)| format!("{}->{}", a, b)).collect(); l.sort();
+                    cx.degraded.push(format!("{}\trenamed-locals\t{} ambiguous={:?}", fkey, l.join(","), amb));
+                    lmap = m;
+                }
+            }
+        }
+    }
+    if !lmap.is_empty() { cx.lrename.insert(fkey.clone(), lmap.clone()); }
     let mut a = Annot {
         fkey: fkey.clone(), counter: 0, ccounter: 0,
         closure_specs: cx.c.text.keys().filter(|k| k.starts_with("__vx_cl_")).cloned().collect(),
-        anchors: cx.c.anchors.iter().filter(|x| x.0 == fkey).map(|x| (x.1, x.2.clone(), x.3.clone(), false)).collect(),
+        anchors: cx.c.anchors.iter().filter(|x| x.0 == fkey).map(|x| (x.1, if lmap.is_empty() { x.2.clone() } else { rename_idents(&x.2, &lmap) }, x.3.clone(), false)).collect(),
         headers: vec![],
     };
     a.visit_block_mut(&mut block);
@@ -1245,7 +1337,7 @@ fn main() {
     let renames: Vec<(String, String)> = o.renames.iter().map(|s| (s.to_string(), format!("v_{}", s))).collect();
     let contracts = load_contracts(&o.contracts);
     let p = Passes { opdesugar: o.opdesugar, mapcollect: o.mapcollect, extendmap: o.extendmap, tryinto: o.tryinto, renames, log: vec![] };
-    let mut cx = Ctx { o: &o, p, c: &contracts, out: String::new(), found: vec![], loops: vec![], errors: vec![], remap: HashMap::new(), degraded: vec![] };
+    let mut cx = Ctx { o: &o, p, c: &contracts, out: String::new(), found: vec![], loops: vec![], errors: vec![], remap: HashMap::new(), degraded: vec![], lrename: HashMap::new(), locals: vec![] };
     let wanted = |n: &str| o.names.iter().any(|x| x == n) || o.stubs.iter().any(|x| x == n);
     for item in file.items.iter() {
         if let Some(n) = item_name(item) {
@@ -1284,11 +1376,12 @@ fn main() {
     for n in o.names.iter().chain(o.stubs.iter()).chain(o.items.iter()) {
         if !cx.found.iter().any(|f| f == n) { cx.errors.push(format!("ANCHOR-LOST item or fn '{}' not found in {}", n, o.src)); }
     }
-    println!("{}", substitute(&cx.out, &contracts, &cx.remap));
+    println!("{}", substitute(&cx.out, &contracts, &cx.remap, &cx.lrename));
     if let Some(lp) = &o.log {
         let mut s = String::new();
         for l in cx.p.log.iter() { s.push_str(&format!("RULE\t{}\t{}\n", o.src, l)); }
         for (f, k, hdr, h, line) in cx.loops.iter() { s.push_str(&format!("LOOP\t{}\t{}\t{}\t{}\t{}\t{}\n", o.src, f, k, h, line, hdr)); }
+        for (f, names) in cx.locals.iter() { s.push_str(&format!("LOCALS\t{}\t{}\t{}\n", o.src, f, names.join(","))); }
         for e in cx.errors.iter() { s.push_str(&format!("ERROR\t{}\t{}\n", o.src, e)); }
         for d in cx.degraded.iter() { s.push_str(&format!("DEGRADED\t{}\t{}\n", o.src, d)); }
         use std::io::Write;
